@@ -313,6 +313,13 @@ def run_shard(spec, seed, tier):
             path, kind, info = allsites[draw(st.integers(0, len(allsites) - 1))]
             if kind == "nonsettable":
                 continue
+            if kind == "tablekey":
+                new, label = mutvals.mutation(draw, kind, info, None)
+                parent = path[:-1]
+                pv2 = dict(mutvals.get(c["values"], parent) if parent else c["values"])
+                pv2[path[-1]] = new
+                muts.append({"values": mutvals.put(c["values"], parent, pv2) if parent else pv2, "label": label})
+                continue
             cur = mutvals.get(c["values"], path) if path else c["values"]
             new, label = mutvals.mutation(draw, kind, info, cur)
             muts.append({"values": mutvals.put(c["values"], path, new), "label": label})
